@@ -21,7 +21,7 @@ def configs(tier):
         ('root level 2docs x 2slots + attribute + forms', dict(family='root_level', fam_kw=dict(docs=2, slots=2, attrs=1, text=False, pool=2))),
         ('colliding children 3occ x 2slots', dict(family='one_level', fam_kw=dict(occ=3, slots=2, attrs=0, text=False, leaf_form=False, p_form=True, names=COLL))),
         ('colliding children 2occ x 3slots', dict(family='one_level', fam_kw=dict(occ=2, slots=3, attrs=0, text=False, leaf_form=False, p_form=True, names=COLL))),
-        ('nested 2occ x 2slots x 1grandchild', dict(family='one_level', fam_kw=dict(occ=2, slots=2, gslots=1, attrs=0, text=False, leaf_form=False, p_form=False, names=COLL))),
+        ('nested 2occ x 1slot x 1grandchild', dict(family='one_level', fam_kw=dict(occ=2, slots=1, gslots=1, attrs=0, text=False, leaf_form=False, p_form=False, names=COLL))),
         ('two documents 2docs x 1occ x 2slots', dict(family='one_level', fam_kw=dict(docs=2, occ=1, slots=2, attrs=0, text=False, leaf_form=False, p_form=False, first_present=False, names=COLL))),
     ]
 
